@@ -3,6 +3,7 @@
 # certain rights in this software.
 from typing import Dict
 from contextlib import contextmanager
+from numbers import Number
 
 from .constant import Constant
 from .macro import Macro
@@ -604,6 +605,10 @@ class GateMemoizer:
         """Basically just replace all lists with tuples, recursively."""
         if isinstance(obj, (list, tuple)):
             return tuple(cls._make_hashable(v) for v in obj)
+        elif isinstance(obj, Number):
+            # 1, 1.0 and True are equal and hash alike, as do 0.0 and -0.0,
+            # but they are different arguments.
+            return (type(obj).__name__, repr(obj))
         else:
             return obj
 
